@@ -98,7 +98,7 @@ contract(CMD + "StateResponse._parse",
              "aux": "self.aux_heat == D['aux'] and self.independent_aux_heat == D['independent_aux']",
              "filter": "self.filter_alert == D['filter']",
              "display": "self.display_on == D['display']",
-             "humidity": "self.target_humidity == D['humidity']",
+             "humidity": "implies(len(payload) >= 20, self.target_humidity == D['humidity'])",
              "humidity_not_invented": "implies(len(payload) < 20, self.target_humidity == old(self.target_humidity))",
              "freeze": "implies(len(payload) >= 22, self.freeze_protection == D['freeze'])",
              "freeze_not_invented": "implies(len(payload) < 22, self.freeze_protection == old(self.freeze_protection))",
